@@ -43,7 +43,7 @@ type Obs struct {
 	Execs  []Exec `json:"execs,omitempty"`
 	Pos    int    `json:"pos"`
 	Dl     int64  `json:"dl,omitempty"`
-	Closed bool   `json:"closed,omitempty"`
+	Closed int    `json:"closed,omitempty"` // how many of the Close calls made so far have returned
 }
 
 // ---------------------------------------------------------------------------------------
@@ -56,13 +56,13 @@ func (i *qitem) Key() int64               { return i.key }
 func (i *qitem) ScheduledTime() time.Time { return vbase.Add(time.Duration(i.due)) }
 
 type runner struct {
-	clk         *vclock
-	p           *queue.Processor[int64, *qitem]
-	mu          sync.Mutex
-	execs       []Exec
-	taken       int // execs already reported
-	closeCalled bool
-	closeDone   atomic.Bool
+	clk        *vclock
+	p          *queue.Processor[int64, *qitem]
+	mu         sync.Mutex
+	execs      []Exec
+	taken      int          // execs already reported
+	closeCalls int          // Close calls made (each in its own goroutine)
+	closeDone  atomic.Int64 // ... of which returned
 }
 
 func newRunner(c0 int64) *runner {
@@ -85,7 +85,7 @@ func (r *runner) callback(it *qitem) {
 func (r *runner) spawnClose() {
 	go func() {
 		_ = r.p.Close()
-		r.closeDone.Store(true)
+		r.closeDone.Add(1)
 	}()
 }
 
@@ -96,10 +96,7 @@ func (r *runner) call(st *Step) error {
 	case "deq":
 		r.p.Dequeue(st.K)
 	case "close":
-		if r.closeCalled {
-			return errors.New("close twice in one script")
-		}
-		r.closeCalled = true
+		r.closeCalls++
 		r.spawnClose()
 	default:
 		return fmt.Errorf("bad call %q", st.O)
@@ -156,20 +153,20 @@ func (r *runner) Do(st *Step) (Obs, error) {
 	default:
 		o.Pos = 0
 	}
-	o.Closed = r.closeDone.Load()
+	o.Closed = int(r.closeDone.Load())
 	return o, nil
 }
 
 // Finish makes sure no goroutine of this runner survives (so that later stack scans see only
-// their own processor). Returns false when Close did not return within the deadline.
+// their own processor). Returns false when some Close call did not return within the deadline.
 func (r *runner) Finish() bool {
 	r.clk.SetGates(false, false, false)
-	if !r.closeCalled {
-		r.closeCalled = true
+	if r.closeCalls == 0 {
+		r.closeCalls++
 		r.spawnClose()
 	}
 	dl := time.Now().Add(10 * time.Second)
-	for !r.closeDone.Load() {
+	for r.closeDone.Load() != int64(r.closeCalls) {
 		if time.Now().After(dl) {
 			return false
 		}
